@@ -53,6 +53,9 @@ type scenario struct {
 	Key      string `json:"key"`
 	Received int    `json:"received"`
 	Class    string `json:"class"`
+	// Download.tla
+	Api  string `json:"api"`
+	Unit int    `json:"unit"`
 }
 
 type mismatch struct {
@@ -281,6 +284,58 @@ type proxy struct {
 	lis   net.Listener
 	mu    sync.Mutex
 	conns []net.Conn
+	// server->client budget: when armed, onLimit is called once `left` more bytes were forwarded
+	armed   bool
+	left    int
+	onLimit func()
+}
+
+// arm makes the proxy call f once n more bytes have travelled from the server to the client.
+func (p *proxy) arm(n int, f func()) {
+	p.mu.Lock()
+	p.armed, p.left, p.onLimit = true, n, f
+	p.mu.Unlock()
+}
+
+// down forwards server->client traffic, honouring the budget.
+func (p *proxy) down(c, s net.Conn) {
+	buf := make([]byte, 512)
+	for {
+		n, err := s.Read(buf)
+		if n > 0 {
+			// the part within the budget is forwarded first, then the fault fires, then the rest follows
+			// (on a connection that was cut the rest goes nowhere)
+			var fire func()
+			first := n
+			p.mu.Lock()
+			if p.armed {
+				if n >= p.left {
+					first = p.left
+					p.armed = false
+					fire = p.onLimit
+				}
+				p.left -= first
+			}
+			p.mu.Unlock()
+			if first > 0 {
+				if _, wErr := c.Write(buf[:first]); wErr != nil {
+					break
+				}
+			}
+			if fire != nil {
+				fire()
+			}
+			if first < n {
+				if _, wErr := c.Write(buf[first:n]); wErr != nil {
+					break
+				}
+			}
+		}
+		if err != nil {
+			break
+		}
+	}
+	c.Close()
 }
 
 func newProxy(target string) (*proxy, error) {
@@ -304,7 +359,7 @@ func newProxy(target string) (*proxy, error) {
 			p.conns = append(p.conns, c, s)
 			p.mu.Unlock()
 			go func() { io.Copy(s, c); s.Close() }()
-			go func() { io.Copy(c, s); c.Close() }()
+			go p.down(c, s)
 		}
 	}()
 	return p, nil
@@ -506,6 +561,99 @@ func runUpload(id int, sc scenario, variant int, base string) (res result) {
 	return res
 }
 
+// ---------------------------------------------------------------- reads over a failing transport (Download.tla)
+
+func runDownload(id int, sc scenario, variant int, base string) (res result) {
+	res = result{Id: id, Mode: "download", Status: "ok"}
+	fail := func(kind, d string) result {
+		res.Status, res.Owner, res.Mismatch = "violation", "C11", &mismatch{Kind: kind, Detail: d}
+		return res
+	}
+	dir, err := os.MkdirTemp(base, "dl")
+	if err != nil {
+		res.Status, res.Error = "error", err.Error()
+		return
+	}
+	defer os.RemoveAll(dir)
+	cfg := drv.NewConfig(dir, 1)
+	unit := 1024 * max(sc.Unit, 1)
+	size := sc.Len * unit
+	if sc.Len > 0 && variant%2 == 1 {
+		size += 7
+	}
+	src := pattern(size, byte(0x20|id))
+	srv, err := verif.StartServer(cfg)
+	if err != nil {
+		res.Status, res.Error = "error", err.Error()
+		return
+	}
+	defer srv.Stop()
+	px, err := newProxy(srv.Addr)
+	if err != nil {
+		res.Status, res.Error = "error", err.Error()
+		return
+	}
+	defer px.close()
+	ctx := context.Background()
+	db, _ := external.Open(ctx, px.lis.Addr().String())
+	if err := db.Set(ctx, "key", src); err != nil {
+		res.Status, res.Error = "error", "setup: "+err.Error()
+		return
+	}
+	rctx, cancel := context.WithCancel(ctx)
+	defer cancel()
+	// the fault hits once about p units of the answer have travelled to the client (plus a few bytes of framing)
+	budget := sc.P*unit + []int{0, 9, 40, 300, 5000, 40000}[(variant/2)%6]
+	switch sc.Kind {
+	case "cut":
+		px.arm(budget, px.cut)
+	case "cancel":
+		px.arm(budget, cancel)
+	}
+	var (
+		got  []byte
+		rErr error
+	)
+	if sc.Api == "get" {
+		got, rErr = db.Get(rctx, "key")
+	} else {
+		var rc io.ReadCloser
+		rc, rErr = db.GetReader(rctx, "key")
+		if rErr == nil {
+			buf := make([]byte, []int{1, 100, 2048, 5000, 70000}[(variant/8)%5])
+			for {
+				n, err := rc.Read(buf)
+				got = append(got, buf[:n]...)
+				if err == io.EOF {
+					break
+				}
+				if err != nil {
+					rErr = err
+					break
+				}
+			}
+			rc.Close()
+		}
+	}
+	where := fmt.Sprintf("%s of %d bytes through the gRPC client, %s once about %d bytes had reached the client, %s", map[string]string{"get": "Get", "reader": "GetReader+Read*"}[sc.Api],
+		size, sc.Kind, budget, errStr(rErr))
+	if rErr == nil && !bytes.Equal(got, src) {
+		return fail("truncated", fmt.Sprintf("the read ended without an error after %d bytes (a prefix of the content: %v): %s",
+			len(got), len(got) <= len(src) && bytes.Equal(got, src[:len(got)]), where))
+	}
+	if sc.Api == "reader" && (len(got) > len(src) || !bytes.Equal(got, src[:len(got)])) {
+		first := 0
+		for first < len(got) && first < len(src) && got[first] == src[first] {
+			first++
+		}
+		return fail("garbled", fmt.Sprintf("the %d bytes delivered before the error are not a prefix of the content (first difference at offset %d): %s", len(got), first, where))
+	}
+	if sc.Kind == "none" && rErr != nil {
+		return fail("failed", "a read over a healthy connection failed: "+where)
+	}
+	return res
+}
+
 func errStr(err error) string {
 	if err == nil {
 		return "returned nil"
@@ -558,7 +706,9 @@ func main() {
 		if variant < 0 {
 			variant = -variant
 		}
-		if scs[0].Kind != "" {
+		if scs[0].Api != "" {
+			enc.Encode(runDownload(line, scs[0], variant, *base))
+		} else if scs[0].Kind != "" {
 			enc.Encode(runUpload(line, scs[0], variant, *base))
 		} else {
 			enc.Encode(runNoSpace(line, scs[0], variant, *base))
